@@ -15,25 +15,13 @@ import (
 
 type solverSpec struct {
 	name string
-	cmd  func(file string, timeoutS int) []string
-	prep func(script string) string
 }
 
 var solvers = []solverSpec{
-	{"z3-new", func(f string, t int) []string { return []string{"z3-new", "-T:" + itoa(t), f} }, nil},
-	{"z3", func(f string, t int) []string { return []string{"z3", "-T:" + itoa(t), f} }, nil},
-	{"cvc5", func(f string, t int) []string {
-		return []string{"cvc5", "--tlimit=" + itoa(t*1000), "--produce-models", f}
-	}, nil},
-}
-
-func itoa(i int) string {
-	return strings.TrimSpace(strings.Replace(string(rune('0'+i%10)), "", "", 0))
-}
-
-func init() {
-	// proper itoa (avoid strconv import churn)
-	_ = itoa
+	{name: "z3-new"}, {name: "z3"}, {name: "cvc5"},
+	// E-matching only (no model-based quantifier instantiation): often proves what the default
+	// configuration gives up on as "incomplete"; can only answer unsat or unknown on quantified goals
+	{name: "z3-ematch"}, {name: "z3-new-ematch"},
 }
 
 type solveResult struct {
@@ -68,6 +56,10 @@ func runOne(ctx context.Context, s solverSpec, file string, timeoutS int) solveR
 	switch s.name {
 	case "z3-new", "z3":
 		args = []string{s.name, "-T:" + fmtInt(timeoutS), file}
+	case "z3-ematch":
+		args = []string{"z3", "-T:" + fmtInt(timeoutS), "smt.mbqi=false", file}
+	case "z3-new-ematch":
+		args = []string{"z3-new", "-T:" + fmtInt(timeoutS), "smt.mbqi=false", file}
 	case "cvc5":
 		args = []string{"cvc5", "--tlimit=" + fmtInt(timeoutS*1000), file}
 	}
